@@ -1,5 +1,7 @@
 (* C09 — EDNS(0) handling. *)
-From QV Require Import Base.ListX Model.NameWire Model.Reader Model.RdataLite Model.Server Proofs.ReaderP Proofs.ServerP.
+From QV Require Import Model.ZoneTree Model.Query Model.MsgWriter Model.QueryW Proofs.ServerOptP.
+From QV Require Import Base.ListX Model.NameWire Model.Reader Model.RdataLite Model.Server Proofs.ReaderP Proofs.ServerP
+  Spec.NameWireS Spec.ReaderS Spec.MsgWalkS Proofs.MsgWalkP Proofs.MsgWalkRecP Proofs.MsgWalkTopP.
 
 (* The response is an EDNS response (one OPT, emitted by Writer::finish) if and only if processing
    reached an OPT record in the request's additional section ([opt_reached]: the question is in
@@ -38,6 +40,59 @@ Example c09_badvers_example :
             w_rcode w = 0%N /\ w_edns w = Some (1232%N, 1%N) /\ w_body w = empty_body.
 Proof. cbv zeta. eexists. split; [vm_compute; reflexivity|]. repeat split. Qed.
 
+(* ---- the spec-level twin of "processing reached an OPT" -----------------------------------------------
+   [s_opt_reached] (Spec/MsgWalkS.v) reads the request with the SPEC decoders only: the question (if any)
+   decodes, the answer/authority records are delimitable (first label sequence + 10 fixed octets +
+   RDLENGTH in bounds) and none is OPT/TSIG, and the additional records, in order over delimitable
+   ordinary records, present a record of type 41 before an undelimitable record, a TSIG or the end. *)
+Theorem c09_opt_reached_is_spec : forall req, wf_bytes req -> opt_reached req = s_opt_reached req.
+Proof. exact opt_reached_spec. Qed.
+
+Theorem c09_opt_iff_spec : forall answer verify cfg req w, wf_cfg cfg -> wf_bytes req ->
+  handle_message answer verify cfg req = Ok (Some w) ->
+  (w_edns w <> None <-> s_opt_reached req = true).
+Proof. exact opt_iff_spec. Qed.
+
+(* BADVERS exactly as the classifier says: a well-formed OPT (root owner, options tiling the RDATA) whose
+   VERSION octet (bits 23..16 of the TTL field) is not 0, met before any problem => extended RCODE 16,
+   no data; a malformed OPT (e.g. owner not the root) is FORMERR (c08_formerr_response, OptMalformed). *)
+Theorem c09_badvers_response : forall answer verify cfg req i w, wf_cfg cfg -> wf_bytes req ->
+  first_problem req = VBadVers i -> handle_message answer verify cfg req = Ok (Some w) ->
+  badvers_resp w /\ no_data w.
+Proof. exact badvers_response. Qed.
+
+(* ---- the OPT record at the byte level ---------------------------------------------------------------------
+   [respond_w] / [respond_plain] (Model/QueryW.v): the byte-level composition of Server::handle_message for a
+   clean QUERY on the Writer model of C12, run with [Some size] exactly when the server model's response is an
+   EDNS response ([size] = the server's payload size, c09_opt_iff).  Every such response ENDS with the 11
+   octets of the OPT pseudo-record: owner root (0), TYPE 41, CLASS = size, TTL field 0 (extended-RCODE bits 0,
+   VERSION 0, flags 0), RDLENGTH 0 — whatever query answering (C05) wrote before it: the EDNS setting survives
+   every Writer-interface operation, clear_rrs and the header setters (invariant EK), and finish emits the
+   record at the cursor (finish_opt / add_rr_opt). *)
+Theorem c09_answered_response_ends_with_opt : forall negttl buf tcp id rd qname qtype qclass size limit z len b,
+  respond_w negttl buf tcp id rd qname qtype qclass (Some size) limit z = Some (len, b) ->
+  11 <= len /\ slice b (len - 11) len = [0%N] ++ be16 41 ++ be16 size ++ be32 0 ++ be16 0.
+Proof. exact respond_w_opt_tail. Qed.
+
+Theorem c09_plain_response_ends_with_opt : forall buf tcp id rd qname qtype qclass size limit rcode len b,
+  respond_plain buf tcp id rd qname qtype qclass (Some size) limit rcode = Some (len, b) ->
+  11 <= len /\ slice b (len - 11) len = [0%N] ++ be16 41 ++ be16 size ++ be32 0 ++ be16 0.
+Proof. exact respond_plain_opt_tail. Qed.
+
+Example c09_spec_examples :
+  let hdr ar := [18;52; 1;0; 0;1; 0;0; 0;0; 0;N.of_nat ar]%N in
+  let q := [0; 0;1; 0;1]%N in
+  let opt := [0; 0;41; 4;208; 0;0;0;0; 0;0]%N in
+  let a := [0; 0;1; 0;1; 0;0;0;60; 0;4; 1;2;3;4]%N in
+  s_opt_reached (hdr 2 ++ q ++ a ++ opt) = true /\ s_opt_reached (hdr 1 ++ q ++ a) = false /\
+  s_opt_reached (hdr 2 ++ q ++ [0; 0;1; 0;1; 0;0;0;60; 0;99]%N ++ opt) = false.
+Proof. cbv zeta. repeat split; vm_compute; reflexivity. Qed.
+
 Print Assumptions c09_opt_iff.
 Print Assumptions c09_validate_opt.
 Print Assumptions c09_badvers_refuted_prefix.
+Print Assumptions c09_opt_reached_is_spec.
+Print Assumptions c09_opt_iff_spec.
+Print Assumptions c09_badvers_response.
+Print Assumptions c09_answered_response_ends_with_opt.
+Print Assumptions c09_plain_response_ends_with_opt.
